@@ -2,7 +2,7 @@
 (* Behaviour export for replay: operation histories of History. *)
 EXTENDS History, Json
 CONSTANTS WModels,
-          Focus      \* "all" | "exp": only Experiment operations (and an occasional wrapper evaluation), so that
+          Focus      \* "all" | "wrap": only SasView-style wrapper operations (set, evaluate, clone) | "exp": only Experiment operations (and an occasional wrapper evaluation), so that
                      \* set / update / theory on the same object follow each other
 VARIABLE hist
 E(op, s, m, q, r, f, w, w2) == [op |-> op, s |-> s, m |-> m, q |-> q, r |-> r, f |-> f, w |-> w, w2 |-> w2]
@@ -32,7 +32,11 @@ GenExp ==
     \/ \E m \in Models, q \in QSets : ExpUpdate(m, q) /\ hist' = Append(hist, E("expupdate", "", m, q, "", FALSE, "", ""))
     \/ \E m \in Models, q \in QSets : ExpTheory(m, q) /\ hist' = Append(hist, E("exptheory", "", m, q, "", FALSE, "", ""))
     \/ \E w \in Wrappers, q \in QSets : Eval(w, q) /\ hist' = Append(hist, E("eval", "", "", q, wrap[w].store, FALSE, w, ""))
-GenNext == IF Focus = "exp" THEN GenExp ELSE GenAll
+GenWrap ==
+    \/ \E w \in Wrappers, r \in Requests : SetParam(w, r) /\ hist' = Append(hist, E("set", "", "", "", r, FALSE, w, ""))
+    \/ \E w \in Wrappers, q \in QSets : Eval(w, q) /\ hist' = Append(hist, E("eval", "", "", q, wrap[w].store, FALSE, w, ""))
+    \/ \E w, w2 \in Wrappers : Clone(w, w2) /\ hist' = Append(hist, E("clone", "", "", "", "", FALSE, w, w2))
+GenNext == IF Focus = "exp" THEN GenExp ELSE IF Focus = "wrap" THEN GenWrap ELSE GenAll
 GenSpec == GenInit /\ [][GenNext]_<<vars, hist>>
 Emit == (nops = MaxOps) => PrintT(<<"BEHAVIOUR", ToJson([steps |-> hist, wmodel |-> [w \in Wrappers |-> wrap[w].m]])>>)
 =============================================================================
